@@ -54,6 +54,14 @@ Theorem C19_json_only_found : forall (valid : bytes -> bool) v u,
 Proof. exact json_only_found_lemma. Qed.
 Print Assumptions C19_json_only_found.
 
+(* White space around embedded JSON does not hide it: isLikelyJSON judges the trimmed text. *)
+Theorem C19_json_embedded_padded : forall c0 mid c1 ws1 ws2,
+  plain_byte c0 = true -> plain_byte c1 = true ->
+  forallb ascii_ws ws1 = true -> forallb ascii_ws ws2 = true ->
+  is_likely_json (ws1 ++ c0 :: mid ++ c1 :: ws2) = is_likely_json_orig (c0 :: mid ++ [c1]).
+Proof. exact likely_json_padded_lemma. Qed.
+Print Assumptions C19_json_embedded_padded.
+
 (* ---- XML, RSS, sitemaps -------------------------------------------------------------------- *)
 
 (* For every token tree and every node of it at any depth: every attribute value that starts with
